@@ -164,8 +164,11 @@ func TestC11(t *testing.T) {
 		realServer(t, r)
 		twoStoresOneServer(t, r)
 		crowdAtTheEndOfARound(t, r)
+		for i := 0; i < r.N(6, 40); i++ {
+			cancelledLeaderCase(t, r, i)
+		}
 	}
-	r.Require("second_rounds_after_a_rollback", "overlapping_polls_of_two_stores", "polls_ok", "polls_failed", "changes_forward", "changes_backward", "changes_inside_window", "expired_with_handle_polls",
+	r.Require("rounds_failed_by_a_cancelled_explicit_caller", "second_rounds_after_a_rollback", "overlapping_polls_of_two_stores", "polls_ok", "polls_failed", "changes_forward", "changes_backward", "changes_inside_window", "expired_with_handle_polls",
 		"cadence_rounds", "cadence_cases_with_slow_service", "cadence_cases_with_an_outage", "cadence_cases_with_explicit_refreshes", "parked_cache_write_cases", "ticker_overlap_cases", "coalesced_refreshes", "coalesced_with_cancelled_leader", "coalesced_after_a_joiner_gave_up", "polls_with_cache_down", "real_server_refreshes", "real_server_empty_values", "final_convergence_checks")
 	r.Rule("A: seeded histories of 8-25 events over 2-5 secrets (declared, looked-up, expiry-aged with a live unread handle): service changes (new version / re-activate an older one / bursts), Refresh with per-request failure and hold scripts (service changes inside the held window), sleeps up to several expiry ages, handle probes; oracle after every Refresh on the cache payload and at probes on handles. Plus cadence cases (background poller, instant service), coalescing cases (K refreshes while the first request is parked) and B: real server+client histories. Distinct = (event kind, poll outcome, backwards?, held?, expiry shape)")
 }
@@ -1005,6 +1008,61 @@ func tickerOverlapCase(t *testing.T, r *evid.Run, idx int) {
 			if got := string(st.Secret(n).Get()); got != n+"3" {
 				r.Violation("no-convergence", idx, fmt.Sprintf("ticker-overlap case %d: %q yields %q after a clean poll, the service has %q", idx, n, got, n+"3"), nil)
 			}
+		}
+	})
+}
+
+// cancelledLeaderCase: an explicit Refresh is in flight when the background tick arrives (the tick's poll joins
+// that round), and then the explicit caller's context is CANCELLED: the shared round fails with that caller's
+// cancellation. A failed poll, nothing more: the background poller goes on, and its next tick brings the store
+// to the service's active version.
+func cancelledLeaderCase(t *testing.T, r *evid.Run, idx int) {
+	r.Eval(1)
+	synctest.Test(t, func(t *testing.T) {
+		svc := fakesvc.New()
+		svc.Set("a", 1, []byte("a1"))
+		gate := make(chan struct{})
+		defer close(gate)
+		first := true
+		svc.Behave = func(q *fakesvc.Req) fakesvc.Behaviour {
+			if q.Cond && first {
+				first = false
+				return fakesvc.Behaviour{Hold: gate}
+			}
+			return fakesvc.Behaviour{}
+		}
+		tick := manualTicker{ch: make(chan time.Time)}
+		st, err := setec.NewStore(context.Background(), setec.StoreConfig{Client: svc, Secrets: []string{"a"}, PollTicker: tick, Logf: func(string, ...any) {}})
+		if err != nil {
+			t.Fatalf("NewStore: %v", err)
+		}
+		defer st.Close()
+		ctx1, cancel1 := context.WithCancel(context.Background())
+		done := make(chan error, 1)
+		go func() { done <- st.Refresh(ctx1) }()
+		synctest.Wait() // the explicit round is parked on its request
+		tickOrder := idx%2 == 0
+		if tickOrder {
+			tick.ch <- time.Now() // the background poll joins the round in flight
+			synctest.Wait()
+		}
+		cancel1()
+		<-done
+		synctest.Wait()
+		svc.Set("a", 2, []byte("a2"))
+		for k := 0; k < 2; k++ {
+			select {
+			case tick.ch <- time.Now():
+			case <-time.After(10 * time.Minute):
+				r.Violation("background-poller-gone", idx, fmt.Sprintf("cancelled-leader case %d: after a round that failed with an explicit caller's cancellation (the background tick had joined it: %t) the poller no longer takes ticks - 10 virtual minutes, nobody receives", idx, tickOrder), nil)
+				return
+			}
+			synctest.Wait()
+		}
+		r.Count("rounds_failed_by_a_cancelled_explicit_caller", 1)
+		r.Distinct(fmt.Sprintf("cancelled leader, tick joined=%t", tickOrder))
+		if got := string(st.Secret("a").Get()); got != "a2" {
+			r.Violation("no-convergence", idx, fmt.Sprintf("cancelled-leader case %d: two background ticks after the failed round the store yields %q, the service has a2", idx, got), nil)
 		}
 	})
 }
